@@ -436,10 +436,16 @@ def status_sx(status):
     return "(exit %s)" % I(status)
 
 
+LIB_WARNINGS = ("YAML Path matches no nodes:", "User-specified configuration file has no ")
+
+
 def strip_debug(text):
-    """DEBUG output is never compared."""
+    """DEBUG output is never compared; neither are the two WARNING lines MergerConfig / DifferConfig
+    themselves emit about a --config file (a section is missing, a rule's path matches nothing): they
+    are library messages, recognised by their text."""
     lines = text.split("\n")
-    return "\n".join(l for l in lines if not l.startswith("DEBUG:  "))
+    return "\n".join(l for l in lines if not l.startswith("DEBUG:  ")
+                     and not (l.startswith("WARNING:  ") and any(w in l for w in LIB_WARNINGS)))
 
 
 def out_lines(text):
@@ -776,18 +782,15 @@ def exec_diff(case, ns):
     # observe which documents reach the Differ
     picked = []
     mod = E["mods"]["diff"]
-    RealDiffer = mod.Differ
 
-    class SpyDiffer(RealDiffer):
-        def __init__(self, config, logger, document, **kw):
-            picked.append(("l", plain(document)))
-            super().__init__(config, logger, document, **kw)
+    real_get_doc = mod.get_doc
 
-        def compare_to(self, document):
-            picked.append(("r", plain(document)))
-            return super().compare_to(document)
+    def spy_get_doc(log, docs, index):
+        d = real_get_doc(log, docs, index)
+        picked.append(("l" if not picked else "r", plain(d)))
+        return d
 
-    status, out, err = run_main("diff", case["argv"], stdin, patches=[(mod, "Differ", SpyDiffer)])
+    status, out, err = run_main("diff", case["argv"], stdin, patches=[(mod, "get_doc", spy_get_doc)])
     text = strip_debug(out)
     lines = []
     used = set()
@@ -981,11 +984,18 @@ def exec_merge(case, ns):
     if target:
         import pathlib
         ext = pathlib.Path(target).suffix.lower()
-    a = "(args %s %s %s %s %s %s %s %s %s %s %s %s)" % (
+    cfgerr = "none"
+    if ns.config and os.path.isfile(ns.config):
+        from yamlpath.merger import MergerConfig
+        try:
+            MergerConfig(NullLog(), ns)
+        except Exception as e:  # noqa
+            cfgerr = "(some %s)" % hexs(type(e).__name__)
+    a = "(args %s %s %s %s %s %s %s %s %s %s %s %s %s)" % (
         B(ns.nostdin), noise_sx(ns), B(bool(ns.config)), B(bool(ns.config) and os.path.isfile(ns.config)),
         hexs(ns.output or ""), B(bool(ns.output) and os.path.exists(ns.output)),
         hexs(ns.overwrite or ""), B(bool(ns.overwrite) and os.path.exists(ns.overwrite)),
-        B(ns.backup), ns.document_format, ns.multi_doc_mode, hexs(ext))
+        B(ns.backup), ns.document_format, ns.multi_doc_mode, hexs(ext), cfgerr)
     keep = {}
     mbit = lambda d: (not hasattr(d, "fa")) or bool(d.fa.flow_style())  # noqa
     srcs = [source_sx(reg, f, stdin, keep, mbit) for f in ns.yaml_files]
